@@ -184,3 +184,27 @@ def sym_isinstance(obj, cls):
 
 def sym_hasattr(obj, name):
     return hasattr(obj, name)
+
+
+_HASH_FN = {}
+
+
+def sym_hash(x):
+    """hash() as an uninterpreted function of the (possibly symbolic) components: equal arguments give equal hashes."""
+    import z3 as _z3
+    if isinstance(x, tuple) and any(isinstance(e, SInt) for e in x):
+        n = len(x)
+        f = _HASH_FN.get(n)
+        if f is None:
+            f = _HASH_FN[n] = _z3.Function(f"hash{n}", *([_z3.IntSort()] * (n + 1)))
+        args = []
+        for e in x:
+            if e is None:
+                args.append(_z3.IntVal(-1))
+            elif isinstance(e, SInt):
+                t = e.t
+                args.append(_z3.BV2Int(t, True) if _z3.is_bv(t) else t)
+            else:
+                args.append(_z3.IntVal(int(e)))
+        return SInt(f(*args))
+    return hash(x)
